@@ -753,6 +753,8 @@ class Name:
                         out += label.lower()
                     else:
                         out += label
+                if len(out) > 255:
+                    raise NameTooLong
             return bytes(out)
 
         labels: Iterable[bytes]
